@@ -49,6 +49,7 @@ Definition js_stmt_text (fm : bool) (en : env) (props : list string) (s : stmt) 
   | SLCallS f args => "fn_call(" ++ nth f (e_lfuncs en) "" ++ "(" ++ join ", " (map (fun e => pp_js (to_js fm en e)) args) ++ "))"
   | SSetObj f pid o v =>
     js_leaf (fclass f) (pp_js (js_raw_or en o (to_js fm en o))) fm ++ "." ++ nth pid (ftable f) "" ++ " = " ++ pp_js (to_js fm en v)
+  | SSetThe k i v => pp_js (to_js fm en (EThe k i)) ++ " = " ++ pp_js (to_js fm en v)
   end.
 
 Definition js_ok_s (en : env) (props : list string) (s : stmt) : Prop :=
@@ -63,6 +64,7 @@ Definition js_ok_s (en : env) (props : list string) (s : stmt) : Prop :=
   | SCallS f args => plain_call_name (nm en f) = true /\ js_ok_args en args
   | SLCallS f args => plain_call_name (nth f (e_lfuncs en) "") = true /\ js_ok_args en args
   | SSetObj f _ o v => assignable f = true /\ js_ok en o /\ js_ok en v
+  | SSetThe k i v => js_ok en (EThe k i) /\ js_ok en v
   end.
 
 Lemma js_args_text fm en l : js_ok_args en l -> forall pc ind,
@@ -77,7 +79,11 @@ Qed.
 Theorem js_stmt_line fm en props s : js_ok_s en props s -> forall pc ind,
   gen_js (reify_s en props pc s) ind fm = js_line ind (js_stmt_text fm en props s).
 Proof.
-  destruct s as [t e|f args|f args|fam pid o v]; intros Hok pc ind; [| | |].
+  destruct s as [t e|f args|f args|fam pid o v|tk ti tv]; intros Hok pc ind; [| | | |].
+  5:{ destruct Hok as (Hk & Hv). cbn [reify_s js_stmt_text].
+      pose proof (gen_js_is_pp fm en (EThe tk ti) Hk (pc + zlen (compile_e tv))%Z ind) as Hl. cbn [reify_e] in Hl.
+      cbn [gen_js]. change (String.eqb "assign" "assign") with true. cbn iota. rewrite Hl, (gen_js_is_pp fm en tv Hv).
+      unfold js_line. reflexivity. }
   4:{ destruct Hok as (Hfam & Ho & Hv). cbn [reify_s js_stmt_text].
       pose proof (objref_js fm en pc o (gen_js_is_pp fm en o) Ho) as Hid.
       pose proof (gen_js_is_pp fm en v Hv) as Hg.
